@@ -816,7 +816,14 @@ class Evaluator:
         return atom(("sub", base, idx))
 
     def ev_BinOp(self, e, st):
-        return self.binop(type(e.op), self.ev(e.left, st), self.ev(e.right, st), e)
+        a, b = self.ev(e.left, st), self.ev(e.right, st)
+        r = self.binop(type(e.op), a, b, e)
+        tag = {ast.Add: "add", ast.Sub: "sub", ast.Mult: "mul", ast.Div: "div"}.get(type(e.op))
+        if tag is not None and isinstance(r, R) and not r.is_const():
+            r = r.with_tree((tag, a, b))
+        elif isinstance(e.op, ast.Pow) and b.is_const() and isinstance(r, R) and not r.is_const():
+            r = r.with_tree(("pow", a, b))
+        return r
 
     def binop(self, op, a, b, node=None):
         if op is ast.Add:
@@ -862,7 +869,8 @@ class Evaluator:
     def ev_UnaryOp(self, e, st):
         v = self.ev(e.operand, st)
         if isinstance(e.op, ast.USub):
-            return -v
+            r = -v
+            return r if r.is_const() else r.with_tree(("neg", v))
         if isinstance(e.op, ast.UAdd):
             return v
         if isinstance(e.op, ast.Not):
@@ -904,7 +912,10 @@ class Evaluator:
         name = {ast.Lt: "<", ast.LtE: "<=", ast.Gt: ">", ast.GtE: ">=", ast.Eq: "==", ast.NotEq: "!=",
                 ast.Is: "is", ast.IsNot: "is not"}.get(type(op))
         if name is not None:
-            return T.mk_cmp(name, a, b)
+            r = T.mk_cmp(name, a, b)
+            if not T.is_pure_const(r):
+                r = r.with_tree(("cmp", name, a, b))
+            return r
         neg = isinstance(op, ast.NotIn)
         bb = b.single_atom()
         if bb is not None and bb[0] in ("tuple", "list", "set") and T.is_pure_const(a) and all(T.is_pure_const(x) for x in bb[1]):
